@@ -330,7 +330,9 @@ func brun(args []string) error {
 		r.Read(noise)
 		mid := make([]byte, 1<<20+4096)
 		r.Read(mid)
-		big := func(p []byte, s uint32) rosgen.Rec { return rosgen.Rec{Kind: "msg", Conn: 3, Secs: s, Nsecs: 7, Payload: p} }
+		big := func(p []byte, s uint32) rosgen.Rec {
+			return rosgen.Rec{Kind: "msg", Conn: 3, Secs: s, Nsecs: 7, Payload: p}
+		}
 		variants := [][]rosgen.Rec{
 			{{Kind: "header"}, {Kind: "chunk", Compression: "lz4", Inner: []rosgen.Rec{conn, big(zeros, 1)}}, {Kind: "chunk", Compression: "none", Inner: []rosgen.Rec{big(noise, 2)}}, {Kind: "chunkinfo"}},
 			{{Kind: "header"}, {Kind: "chunk", Compression: "none", Inner: []rosgen.Rec{conn, big(noise, 1)}}, {Kind: "chunk", Compression: "lz4", Inner: []rosgen.Rec{big(zeros, 2), big(mid, 3)}}},
